@@ -469,7 +469,7 @@ func runC13(r *Runner, g *Gen, tier string) string {
 		if g.r.Bool() {
 			v = g.jarr(d)
 		}
-		enc := execOp(L(A("jrt"), A("enc"), v))
+		enc := jenc(r, v)
 		if strings.HasPrefix(enc, "ok x") {
 			r.Do(L(A("jrt"), A("desc"), v, A(enc[3:])), true, "jrt.desc")
 		}
